@@ -230,15 +230,109 @@ func c11MixK(salt, x, y int, read bool) int {
 	return int(h)
 }
 
-func (t c11K) Process() (int, error) {
-	x := t.A.Value()
-	var h int
-	if x > 0 {
-		y := t.B.Value()
-		h = c11MixK(t.salt, x, y, true)
-	} else {
-		h = c11MixK(t.salt, x, 0, false)
+// c11KValue is what c11K.Process computes, as a function of "read port k" (nil port: ok=false).
+// The same function evaluates the processor on the real ports and, in skipSpec, on the harness's
+// bookkeeping, so the two skip exactly alike:
+//
+//	A nil            -> (salt*31+2)%M, nothing is read
+//	x := A; x <= 0   -> h=(salt*31+11+x)%M; h=(h*31+3)%M             (B is not read)
+//	x > 0, B nil     -> h=(salt*31+11+x)%M; h=(h*31+7)%M
+//	x > 0, y := B    -> h=(salt*31+11+x)%M; h=(h*31+11+y)%M          (= c11MixK)
+func c11KValue(salt int, wired func(k int) bool, read func(k int) int) int {
+	if !wired(0) {
+		return int((int64(salt)*31 + 2) % c11M)
 	}
+	x := read(0)
+	if x <= 0 {
+		return c11MixK(salt, x, 0, false)
+	}
+	if !wired(1) {
+		h := (int64(salt)*31 + 11 + int64(x)) % c11M
+		return int((h*31 + 7) % c11M)
+	}
+	return c11MixK(salt, x, read(1), true)
+}
+
+func c11PortFuncs(ports ...c11In) (func(int) bool, func(int) int) {
+	return func(k int) bool { return ports[k] != nil }, func(k int) int { return ports[k].Value() }
+}
+
+func (t c11K) Process() (int, error) {
+	wired, read := c11PortFuncs(t.A, t.B)
+	h := c11KValue(t.salt, wired, read)
+	t.rec.log = append(t.rec.log, t.id)
+	return h, nil
+}
+
+// c11W: screw-like, pulls a LATER dependency first and then decides about an EARLIER one
+// (ports A, B, C; pull order B, C, then maybe A):
+//
+//	B nil                 -> (salt*31+1)%M, nothing is read (although A, C may be wired)
+//	b := B                -> h=(salt*31+11+b)%M
+//	C wired: c := C       -> h=(h*31+13+c)%M        C nil -> h=(h*31+5)%M
+//	A wired and b odd: a := A -> h=(h*31+17+a)%M    otherwise (A not read) -> h=(h*31+3)%M
+type c11W struct {
+	C, A     c11In
+	id, salt int
+	B        c11In
+	rec      *c11Rec
+}
+
+func c11WValue(salt int, wired func(k int) bool, read func(k int) int) int {
+	if !wired(1) {
+		return int((int64(salt)*31 + 1) % c11M)
+	}
+	b := read(1)
+	h := (int64(salt)*31 + 11 + int64(b)) % c11M
+	if wired(2) {
+		h = (h*31 + 13 + int64(read(2))) % c11M
+	} else {
+		h = (h*31 + 5) % c11M
+	}
+	if wired(0) && b%2 == 1 {
+		h = (h*31 + 17 + int64(read(0))) % c11M
+	} else {
+		h = (h*31 + 3) % c11M
+	}
+	return int(h)
+}
+
+func (t c11W) Process() (int, error) {
+	wired, read := c11PortFuncs(t.A, t.B, t.C)
+	h := c11WValue(t.salt, wired, read)
+	t.rec.log = append(t.rec.log, t.id)
+	return h, nil
+}
+
+// c11Nil: early return on a nil port before reading the other, wired, ports (token `N`):
+//
+//	A nil      -> (salt*31+2)%M, nothing is read (although B, C may be wired)
+//	a := A     -> h=(salt*31+11+a)%M; then for X in (B, C): nil -> h=(h*31+7)%M, x := X -> h=(h*31+11+x)%M
+type c11Nil struct {
+	B        c11In
+	id, salt int
+	rec      *c11Rec
+	A, C     c11In
+}
+
+func c11NilValue(salt int, wired func(k int) bool, read func(k int) int) int {
+	if !wired(0) {
+		return int((int64(salt)*31 + 2) % c11M)
+	}
+	h := (int64(salt)*31 + 11 + int64(read(0))) % c11M
+	for k := 1; k <= 2; k++ {
+		if wired(k) {
+			h = (h*31 + 11 + int64(read(k))) % c11M
+		} else {
+			h = (h*31 + 7) % c11M
+		}
+	}
+	return int(h)
+}
+
+func (t c11Nil) Process() (int, error) {
+	wired, read := c11PortFuncs(t.A, t.B, t.C)
+	h := c11NilValue(t.salt, wired, read)
 	t.rec.log = append(t.rec.log, t.id)
 	return h, nil
 }
@@ -856,7 +950,7 @@ func (cs *c11Case) exec(o c11Op, ans *strings.Builder) (bool, int) {
 			n.node.SetInput(c11ArrName[o.b]+"."+strconv.Itoa(o.d), nodes.Output{})
 		case "rd":
 			h := 0
-			if (n.kind == 'S' || n.kind == 'K') && !cs.fixed {
+			if (n.kind == 'S' || n.kind == 'K' || n.kind == 'W' || n.kind == 'N') && !cs.fixed {
 				h = cs.c.Rng.Intn(len(n.outs))
 			}
 			read := n.readFn
@@ -1664,7 +1758,7 @@ func c11SkipBuild(c *Ctx, fixed bool, desc []c11SkipNode) (*c11Case, string) {
 			cs.nd = append(cs.nd, &c11Node{kind: 'Q', node: pv, pv: pv, pval: d.v, outs: []c11In{pv, pv.Out()},
 				refs: []nodes.NodeOutputReference{pv, pv.Out(), pv.Outputs()[0].NodeOutput}, cached: func() int { return pv.Value() }})
 			fmt.Fprintf(&req, " Q %d", d.v)
-		case 'S', 'K':
+		case 'S', 'K', 'W', 'N':
 			lit := make([]c11In, len(d.sc))
 			for k, s := range d.sc {
 				if s >= i {
@@ -1675,13 +1769,26 @@ func c11SkipBuild(c *Ctx, fixed bool, desc []c11SkipNode) (*c11Case, string) {
 				}
 			}
 			var n *c11Node
-			if d.kind == 'K' {
-				if len(d.sc) != 2 || d.sc[0] < 0 || d.sc[1] < 0 || cs.nd[d.sc[0]].kind == 'S' || cs.nd[d.sc[0]].kind == 'K' || cs.nd[d.sc[1]].kind != 'S' {
-					panic("c11 skip: K needs A = parameter, B = struct node")
+			switch d.kind {
+			case 'K':
+				if len(d.sc) != 2 {
+					panic("c11 skip: K has two ports")
 				}
 				n = c11Wrap(c11K{id: i, salt: d.v, rec: cs.rec, A: lit[0], B: lit[1]}, !fixed && c.Rng.Intn(2) == 0)
 				n.kind = 'K'
-			} else {
+			case 'W':
+				if len(d.sc) != 3 {
+					panic("c11 skip: W has three ports")
+				}
+				n = c11Wrap(c11W{id: i, salt: d.v, rec: cs.rec, A: lit[0], B: lit[1], C: lit[2]}, !fixed && c.Rng.Intn(2) == 0)
+				n.kind = 'W'
+			case 'N':
+				if len(d.sc) != 3 {
+					panic("c11 skip: N has three ports")
+				}
+				n = c11Wrap(c11Nil{id: i, salt: d.v, rec: cs.rec, A: lit[0], B: lit[1], C: lit[2]}, !fixed && c.Rng.Intn(2) == 0)
+				n.kind = 'N'
+			default:
 				n = c11NewStruct(i, d.v, cs.rec, lit, nil, !fixed && c.Rng.Intn(2) == 0)
 			}
 			n.salt, n.sc, n.ar = d.v, append([]int{}, d.sc...), [][]int{}
@@ -1704,12 +1811,17 @@ func (cs *c11Case) skipSpec(i int) int {
 		return n.pval
 	case 'E':
 		return cs.skipSpec(n.sc[0])
-	case 'K':
-		x := cs.skipSpec(n.sc[0])
-		if x > 0 {
-			return c11MixK(n.salt, x, cs.skipSpec(n.sc[1]), true)
+	case 'K', 'W', 'N':
+		// the same value functions as the processors, over the bookkeeping: skips exactly alike
+		wired := func(k int) bool { return n.sc[k] >= 0 }
+		read := func(k int) int { return cs.skipSpec(n.sc[k]) }
+		switch n.kind {
+		case 'K':
+			return c11KValue(n.salt, wired, read)
+		case 'W':
+			return c11WValue(n.salt, wired, read)
 		}
-		return c11MixK(n.salt, x, 0, false)
+		return c11NilValue(n.salt, wired, read)
 	}
 	h := int64(n.salt)
 	for _, s := range n.sc {
@@ -2564,13 +2676,342 @@ func c11MsgHistory(c *Ctx) {
 	c.Emit("c11.holds.version", q+" @ "+a, "true")
 }
 
+// skipExec2: one op of the general skipper histories (K / W / N with any wiring), with the Go-side
+// freshness assertion and the notes of that family
+func (cs *c11Case) skipExec2(o c11Op, ans *strings.Builder, ops *[]string) bool {
+	c := cs.c
+	n := cs.nd[o.a]
+	isSkipper := func(j int) bool { k := cs.nd[j].kind; return k == 'K' || k == 'W' || k == 'N' }
+	// notes that need the state BEFORE the call
+	switch o.kind {
+	case "si":
+		if isSkipper(o.a) {
+			tag := fmt.Sprintf("skip.%c.rewired-skipper-port.", n.kind)
+			switch {
+			case o.d < 0 && n.sc[o.b] < 0:
+				c.Note(tag + "nil-on-nil")
+			case o.d < 0:
+				c.Note(tag + "disconnect-" + c11PortName[o.b])
+			case n.sc[o.b] < 0:
+				c.Note(tag + "connect-" + c11PortName[o.b])
+			default:
+				c.Note(tag + "replace-" + c11PortName[o.b])
+			}
+			if o.d >= 0 && isSkipper(o.d) {
+				c.Note("skip.si.skipper-wired-to-skipper")
+			}
+		} else {
+			c.Note("skip.si.S-port")
+		}
+		if o.d > o.a {
+			c.Note("skip.si.source-with-larger-id")
+		}
+	case "sp":
+		for _, m := range cs.nd {
+			if m.kind == 'W' && m.sc[1] == o.a && (n.pval%2) != (o.b%2) {
+				c.Note("skip.sp.flips-parity-of-a-W-B")
+				break
+			}
+		}
+		for _, m := range cs.nd {
+			if m.kind == 'K' && m.sc[0] == o.a && (n.pval > 0) != (o.b > 0) {
+				c.Note("skip.sp.flips-sign-of-a-K-A")
+				break
+			}
+		}
+	}
+	ok, _ := cs.exec(o, ans)
+	*ops = append(*ops, o.String())
+	c.Note("skip2.op." + o.kind)
+	if !ok {
+		c.Note("skip.op.PANIC")
+		return false
+	}
+	if o.kind != "rd" {
+		return true
+	}
+	if want := cs.skipSpec(o.a); cs.lastV1 != want || cs.lastV2 != want {
+		c.Note("skip.FRESHNESS-FAILED")
+		fmt.Fprintf(os.Stderr, "c11 skip: read of node %d returned %d %d, from-scratch value %d; ops so far: %s\n",
+			o.a, cs.lastV1, cs.lastV2, want, strings.Join(*ops, " "))
+	}
+	pos := func(l []int, j int) int {
+		for k, e := range l {
+			if e == j {
+				return k
+			}
+		}
+		return -1
+	}
+	// what every skipper executed by the FIRST read did (the bookkeeping is the wiring it saw)
+	for _, j := range cs.lastX {
+		m := cs.nd[j]
+		if !isSkipper(j) {
+			continue
+		}
+		wiredCount := 0
+		over := false
+		for _, s := range m.sc {
+			if s >= 0 {
+				wiredCount++
+				over = over || isSkipper(s)
+			}
+		}
+		if over {
+			c.Note("skip.exec.skipper-over-skipper")
+		}
+		val := func(k int) int { return cs.skipSpec(m.sc[k]) }
+		switch m.kind {
+		case 'W':
+			switch {
+			case m.sc[1] < 0 && wiredCount > 0:
+				c.Note("skip.W.read-nothing.other-ports-wired")
+			case m.sc[1] < 0:
+				c.Note("skip.W.read-nothing.all-nil")
+			case m.sc[0] >= 0 && val(1)%2 == 1:
+				c.Note("skip.W.pulled-A-after-B")
+				a, b := pos(cs.lastX, m.sc[0]), pos(cs.lastX, m.sc[1])
+				if a >= 0 && b >= 0 && b < a {
+					c.Note("skip.W.log-shows-B-executed-before-A")
+				}
+			case m.sc[0] >= 0:
+				c.Note("skip.W.skipped-wired-A.b-even")
+			default:
+				c.Note("skip.W.A-nil")
+			}
+			if m.sc[1] >= 0 && m.sc[2] < 0 {
+				c.Note("skip.W.C-nil")
+			}
+		case 'N':
+			switch {
+			case m.sc[0] < 0 && wiredCount > 0:
+				c.Note("skip.N.early-return-with-wired-B-or-C")
+			case m.sc[0] < 0:
+				c.Note("skip.N.early-return.all-nil")
+			case wiredCount == 3:
+				c.Note("skip.N.read-all-three")
+			default:
+				c.Note("skip.N.read-A-and-some-nil")
+			}
+		case 'K':
+			switch {
+			case m.sc[0] < 0 && m.sc[1] >= 0:
+				c.Note("skip.K.A-nil.read-nothing.B-wired")
+			case m.sc[0] < 0:
+				c.Note("skip.K.A-nil.read-nothing.all-nil")
+			case val(0) <= 0 && m.sc[1] >= 0:
+				c.Note("skip.K.skipped-wired-B")
+			case val(0) <= 0:
+				c.Note("skip.K.x-nonpositive.B-nil")
+			case m.sc[1] < 0:
+				c.Note("skip.K.x-positive.B-nil")
+			default:
+				c.Note("skip.K.read-both")
+			}
+			if m.sc[0] >= 0 && cs.nd[m.sc[0]].kind != 'P' && cs.nd[m.sc[0]].kind != 'Q' {
+				c.Note("skip.K.A-is-a-struct-node")
+			}
+		}
+	}
+	kind := string(n.kind)
+	switch {
+	case n.kind == 'P' || n.kind == 'Q':
+		c.Note("skip2.rd-parameter")
+	case len(cs.lastY) > 0:
+		c.Note("skip2.rd-" + kind + ".second-read-executed") // the known finding (or downstream of it)
+	case len(cs.lastX) > 0:
+		c.Note("skip2.rd-" + kind + ".first-read-executed-only")
+	default:
+		c.Note("skip2.rd-" + kind + ".executed-nothing")
+	}
+	return true
+}
+
+// one random history over a graph of K / W / N skippers with ANY wiring (nil ports, parameters,
+// S nodes, other skippers, 2-3 levels), S nodes downstream, and re-wiring of the skippers' own ports
+func c11SkipRandom2(c *Ctx) bool {
+	r := c.Rng
+	var desc []c11SkipNode
+	salt := func() int { return 1 + r.Intn(100000) }
+	np := 2 + r.Intn(2)
+	for i := 0; i < np; i++ {
+		k := byte('P')
+		if r.Intn(2) == 0 {
+			k = 'Q'
+		}
+		v := r.Intn(40) // 0, odd and even values all common
+		if r.Intn(5) == 0 {
+			v = 0
+		}
+		desc = append(desc, c11SkipNode{k, v, nil})
+	}
+	var skippers []int
+	src := func(i int, preferSkipper bool) int {
+		if r.Intn(5) == 0 {
+			return -1
+		}
+		if preferSkipper && len(skippers) > 0 && r.Intn(2) == 0 {
+			return skippers[r.Intn(len(skippers))]
+		}
+		return r.Intn(i)
+	}
+	stacked := r.Intn(10) < 6 // skipper over skipper on purpose
+	for n := 3 + r.Intn(6); n > 0; n-- {
+		i := len(desc)
+		switch pick := r.Intn(100); {
+		case pick < 30:
+			sc := make([]int, 1+r.Intn(3))
+			for k := range sc {
+				sc[k] = src(i, true)
+			}
+			desc = append(desc, c11SkipNode{'S', salt(), sc})
+		case pick < 50:
+			desc = append(desc, c11SkipNode{'K', salt(), []int{src(i, stacked), src(i, stacked)}})
+			skippers = append(skippers, i)
+		case pick < 78:
+			desc = append(desc, c11SkipNode{'W', salt(), []int{src(i, stacked), src(i, stacked), src(i, stacked)}})
+			skippers = append(skippers, i)
+		default:
+			desc = append(desc, c11SkipNode{'N', salt(), []int{src(i, stacked), src(i, stacked), src(i, stacked)}})
+			skippers = append(skippers, i)
+		}
+	}
+	if len(skippers) == 0 {
+		i := len(desc)
+		desc = append(desc, c11SkipNode{'W', salt(), []int{src(i, false), r.Intn(i), src(i, false)}})
+		skippers = append(skippers, i)
+	}
+	if r.Intn(2) == 0 { // an ordinary node downstream of a skipper
+		desc = append(desc, c11SkipNode{'S', salt(), []int{skippers[r.Intn(len(skippers))]}})
+	}
+	{
+		sc := make([][]int, len(desc))
+		for i, d := range desc {
+			sc[i] = d.sc
+		}
+		if c11Paths(sc, make([][][]int, len(desc))) > c11PathCap/2 {
+			c.Note("gen.plan-over-path-cap")
+			return false
+		}
+	}
+	cs, header := c11SkipBuild(c, false, desc)
+	N := len(desc)
+	var params, structs []int
+	for i, n := range cs.nd {
+		if n.kind == 'P' || n.kind == 'Q' {
+			params = append(params, i)
+		} else {
+			structs = append(structs, i)
+		}
+	}
+	// levels of skippers stacked directly on each other
+	depth := make([]int, N)
+	maxDepth := 0
+	for _, i := range skippers {
+		depth[i] = 1
+		for _, s := range cs.nd[i].sc {
+			if s >= 0 && depth[s]+1 > depth[i] {
+				depth[i] = depth[s] + 1
+			}
+		}
+		if depth[i] > maxDepth {
+			maxDepth = depth[i]
+		}
+	}
+	switch {
+	case maxDepth >= 3:
+		c.Note("skip.shape.skipper-over-skipper.3+-levels")
+	case maxDepth == 2:
+		c.Note("skip.shape.skipper-over-skipper.2-levels")
+	default:
+		c.Note("skip.shape.no-stacked-skippers")
+	}
+	c.Note("skip.shape.general")
+	var ans strings.Builder
+	var ops []string
+	follow := -1 // node whose wiring / input was just changed: read at or downstream of it next
+	for M := 8 + r.Intn(23); len(ops) < M; {
+		pick := r.Intn(100)
+		switch {
+		case follow >= 0 && r.Intn(10) < 7:
+			ds := cs.downstream(follow)
+			follow = -1
+			cs.skipExec2(c11Op{kind: "rd", a: ds[r.Intn(len(ds))]}, &ans, &ops)
+		case pick < 22: // Set; parities and signs flip often
+			p := params[r.Intn(len(params))]
+			v := cs.freshVal()
+			switch r.Intn(4) {
+			case 0:
+				v = 0
+			case 1:
+				if v%2 == cs.nd[p].pval%2 { // flip the parity
+					v++
+					cs.fresh = v
+				}
+			}
+			if cs.skipExec2(c11Op{kind: "sp", a: p, b: v}, &ans, &ops) && r.Intn(2) == 0 {
+				follow = p
+			}
+		case pick < 47: // re-wire a port: mostly of a skipper, mostly changing its nil-ness
+			i := structs[r.Intn(len(structs))]
+			if r.Intn(4) != 0 {
+				i = skippers[r.Intn(len(skippers))]
+			}
+			n := cs.nd[i]
+			if len(n.sc) == 0 {
+				continue
+			}
+			k := r.Intn(len(n.sc))
+			d := -1
+			if n.sc[k] < 0 || r.Intn(10) < 6 {
+				if i > 0 && r.Intn(3) != 0 {
+					d = r.Intn(i)
+				} else {
+					d = cs.anySrc(i)
+				}
+				if d >= 0 {
+					sc0, ar0 := cs.wiring()
+					if d == i || c11Reaches(sc0, ar0, d, i) {
+						c.Note("gen.cycle-avoided")
+						d = cs.anySrc(i)
+					}
+				}
+				if d >= 0 {
+					sc1, ar1 := cs.wiring()
+					sc1[i][k] = d
+					if c11Paths(sc1, ar1) > c11PathCap {
+						c.Note("gen.op-over-path-cap")
+						continue
+					}
+				}
+			}
+			if cs.skipExec2(c11Op{"si", i, k, d}, &ans, &ops) {
+				follow = i
+			}
+		case pick < 85:
+			cs.skipExec2(c11Op{kind: "rd", a: skippers[r.Intn(len(skippers))]}, &ans, &ops)
+		default:
+			cs.skipExec2(c11Op{kind: "rd", a: r.Intn(N)}, &ans, &ops)
+		}
+	}
+	cs.errNotes()
+	c11SkipEmit(c, false, header, ops, &ans)
+	return true
+}
+
 const c11SkipRandomN = 300
+const c11SkipRandom2N = 200
 
 func runC11(c *Ctx) {
 	// skipping-processor family first, independent of -n
 	c11SkipWitnesses(c)
 	for k := 0; k < c11SkipRandomN; k++ {
 		c11SkipRandom(c)
+	}
+	for k := 0; k < c11SkipRandom2N; {
+		if c11SkipRandom2(c) {
+			k++
+		}
 	}
 	// message family: ~400 histories in the quick tier (n = 6000), scaled with n
 	nm := c.N / 15
